@@ -756,3 +756,88 @@ FIXED_FORMULAS = [
   "not not a", "not (not (not 0))", "a and b and c and d and e", "0 or '' or [] or None or 0.0 or 5", "True # c\t", "a #\x0c x \x0c",
   "__debug__", "None is None", "not True", "[] == []", "[[1, [2]], []]", "f()", "f(k=1)", "$A.lower()", "user . Name",
 ]
+
+
+# ---------------------------------------------------------------------------------------------
+# Glue that is hand-modelled (not translated): pinned by equality of its alpha-normalised AST with the text the
+# models were written from.  Comments, blank lines and renaming of locals do not matter; anything else does.
+
+def normalised_dump(fn):
+  """ast.dump of a function with its local names (parameters, assigned names, loop and comprehension targets,
+  nested function names and their parameters) replaced by v0, v1, ... in order of first binding."""
+  names = {}
+
+  def bind(n):
+    if n not in names:
+      names[n] = 'v%d' % len(names)
+
+  for node in ast.walk(fn):
+    if isinstance(node, ast.arg):
+      bind(node.arg)
+    elif isinstance(node, ast.Name) and isinstance(node.ctx, ast.Store):
+      bind(node.id)
+    elif isinstance(node, ast.FunctionDef) and node is not fn:
+      bind(node.name)
+    elif isinstance(node, ast.ExceptHandler) and node.name:
+      bind(node.name)
+
+  class R(ast.NodeTransformer):
+    def visit_Name(self, node):
+      return ast.copy_location(ast.Name(id=names.get(node.id, node.id), ctx=node.ctx), node)
+
+    def visit_arg(self, node):
+      return ast.copy_location(ast.arg(arg=names.get(node.arg, node.arg), annotation=None), node)
+
+    def visit_FunctionDef(self, node):
+      self.generic_visit(node)
+      if node is not fn:
+        node.name = names.get(node.name, node.name)
+      if node.body and isinstance(node.body[0], ast.Expr) and isinstance(node.body[0].value, ast.Constant) and \
+         isinstance(node.body[0].value.value, str):
+        node.body = node.body[1:] or [ast.Pass()]            # docstrings do not matter
+      return node
+
+    def visit_ExceptHandler(self, node):
+      self.generic_visit(node)
+      if node.name:
+        node.name = names.get(node.name, node.name)
+      return node
+
+  import copy
+  return ast.dump(R().visit(copy.deepcopy(fn)))
+
+
+PINNED = {   # function -> sha1 of the normalised dump (written from /repo at the time the models were made)
+  'predicate_formula.parse_predicate_formula': '0173d2fa43e6c4a7',
+  'predicate_formula.parse_predicate_formula_json': '1a90b242b7455213',
+  'predicate_formula.process_renames': '3d9d21f88f8f8716',
+  'dropdown_condition.perform_dropdown_condition_renames': 'b4fd78887df586a6',
+  'trigger_expression.perform_trigger_condition_renames': 'fb01a1c1fba8279f',
+}
+
+
+def glue_hashes():
+  import hashlib
+  out = {}
+  for mod, fns in (('predicate_formula', ['parse_predicate_formula', 'parse_predicate_formula_json', 'process_renames']),
+                   ('dropdown_condition', ['perform_dropdown_condition_renames']),
+                   ('trigger_expression', ['perform_trigger_condition_renames'])):
+    with open(os.path.join(core.GRIST, mod + '.py')) as f:
+      tree = ast.parse(f.read())
+    for s in tree.body:
+      if isinstance(s, ast.FunctionDef) and s.name in fns:
+        out['%s.%s' % (mod, s.name)] = hashlib.sha1(normalised_dump(s).encode()).hexdigest()[:16]
+    missing = [n for n in fns if '%s.%s' % (mod, n) not in out]
+    if missing:
+      raise core.TieBroken('%s: %s not found' % (mod, missing))
+  return out
+
+
+def check_pinned_glue(which):
+  """Raises TieBroken when a hand-modelled function changed (other than comments / local names)."""
+  have = glue_hashes()
+  for name in which:
+    if have.get(name) != PINNED.get(name):
+      raise core.TieBroken('%s changed since the model was written from it (pinned AST %s, now %s): re-read it, adapt '
+                           'Model/Predicate*.v and update harness/predgen.py PINNED' % (name, PINNED.get(name), have.get(name)))
+  return {n: have[n] for n in which}
